@@ -48,17 +48,24 @@ impl Region {
 
 pub fn run(rep: &mut Report, thorough: bool) {
     crate::util::install_quiet_panic_hook();
-    rep.rule = "a pattern mapping fenced by a PROT_NONE mapping on one side and an unmapped page on the other, target suspended through the real suspend_threads; for each of the three strategies (forced through MemReader::for_*): EXHAUSTIVE small grid (every end distance 0..16 x every length 1..40 at the mapping end, and every start distance 0..16 x length 1..40 at the mapping start), sampled large ranges (4095,4096,4097,65535,65536 at all alignments mod 8), ranges crossing the end by 1..4096 bytes, ranges starting in the fence; both read() and read_to_vec(); plus short read histories on one auto-selecting reader (MemReader::new) whose first read starts in readable memory. Oracle: address-derived pattern. distinct = hash(strategy, start, length); non-trivial = every case".into();
+    rep.rule = "a pattern mapping fenced by a PROT_NONE mapping on one side and an unmapped page on the other (one target has it at address 0), target suspended through the real suspend_threads; for each of the three strategies (forced through MemReader::for_*): EXHAUSTIVE small grid (every end distance 0..16 x every length 1..40 at the mapping end, and every start distance 0..16 x length 1..40 at the mapping start), sampled large ranges (4095,4096,4097,65535,65536 at all alignments mod 8), ranges crossing the end by 1..4096 bytes, ranges starting in the fence; both read() and read_to_vec(); plus short read histories on one auto-selecting reader (MemReader::new) whose first read starts in readable memory. Oracle: address-derived pattern. distinct = hash(strategy, start, length); non-trivial = every case".into();
     let mut rng = Rng::new(rep.seed.wrapping_mul(171_717));
-    let ntargets = if thorough { 48 } else { 2 };
+    let ntargets = if thorough { 49 } else { 3 };
     for ti in 0..ntargets {
         let mut b = Builder::new();
-        // layout: [PROT_NONE 2 pages][pattern 17+ pages][unmapped]  or mirrored
-        let mirrored = ti % 2 == 1;
+        // layout: [PROT_NONE 2 pages][pattern 17+ pages][unmapped]  or mirrored; the last target has
+        // its pattern mapping at ADDRESS 0 (ranges that end below the first word boundary)
+        let low = ti == ntargets - 1;
+        let mirrored = low || ti % 2 == 1;
         let pages = 17 + (ti as u64 % 3);
         let (m_start, m_end);
         let fence_idx;
-        if !mirrored {
+        if low {
+            m_start = 0;
+            m_end = pages * PAGE;
+            b.add_region(crate::spec::Region { addr: 0, len: pages * PAGE, prot: 6, kind: crate::spec::RegionKind::Anon, fill: Fill::Pattern, pokes: Vec::new(), unlink_after: false });
+            fence_idx = b.add_region(crate::spec::Region { addr: m_end, len: 2 * PAGE, prot: 0, kind: crate::spec::RegionKind::Anon, fill: Fill::Keep, pokes: Vec::new(), unlink_after: false });
+        } else if !mirrored {
             fence_idx = b.anon(2, 8, 0, Fill::Keep);
             let m = b.anon(pages, 0, if ti % 3 == 2 { 4 } else { 6 }, Fill::Pattern);
             m_start = b.spec.regions[m].addr;
@@ -71,7 +78,7 @@ pub fn run(rep: &mut Report, thorough: bool) {
             fence_idx = b.anon(2, 0, 0, Fill::Keep);
         }
         // all-ones runs: an aligned word, an unaligned run, the last 8 / 16 bytes of the mapping, the first word
-        let ones: Vec<(u64, u64)> = vec![(m_start, m_start + 8), (m_start + 64, m_start + 72), (m_start + 4099, m_start + 4099 + 11), (m_start + 8 * PAGE + 16, m_start + 8 * PAGE + 48), (m_end - if ti % 2 == 0 { 8 } else { 16 }, m_end)];
+        let ones: Vec<(u64, u64)> = vec![if low { (m_start + 8, m_start + 16) } else { (m_start, m_start + 8) }, (m_start + 64, m_start + 72), (m_start + 4099, m_start + 4099 + 11), (m_start + 8 * PAGE + 16, m_start + 8 * PAGE + 48), (m_end - if ti % 2 == 0 { 8 } else { 16 }, m_end)];
         {
             let mi = b.spec.regions.iter().position(|r| r.addr == m_start).unwrap();
             for (s, e) in &ones {
@@ -81,11 +88,19 @@ pub fn run(rep: &mut Report, thorough: bool) {
         b.sentinel(&mut rng, Mode::Pause, &StackShape::default(), None, None);
         let t = match Target::spawn(b.spec.clone(), &b.opts) {
             Ok(t) => t,
+            Err(e) if low => {
+                // page 0 cannot be mapped here (vm.mmap_min_addr without CAP_SYS_RAWIO)
+                rep.note(&format!("no target with a mapping at address 0 on this machine: {e}"));
+                continue;
+            }
             Err(e) => {
                 rep.inconclusive(format!("target did not start: {e}"));
                 continue;
             }
         };
+        if low {
+            rep.count("targets_with_a_mapping_at_address_0", 1);
+        }
         let fa = b.spec.regions[fence_idx].addr;
         let region = Region { start: m_start, end: m_end, fence: (fa, fa + 2 * PAGE), ones: ones.clone() };
         // suspend through the real code path (this thread becomes the tracer)
@@ -127,11 +142,15 @@ pub fn run(rep: &mut Report, thorough: bool) {
             }
         }
         for back in [1u64, 7, 8, 9, 4096] {
-            crossing.push((region.start - back, (back + 16) as usize));
+            if let Some(st) = region.start.checked_sub(back) {
+                crossing.push((st, (back + 16) as usize));
+            }
         }
         crossing.push((region.end, 8));
         crossing.push((region.end + 4096, 16));
-        crossing.push((region.start - 4096, 4096));
+        if let Some(st) = region.start.checked_sub(4096) {
+            crossing.push((st, 4096));
+        }
         for _ in 0..(if thorough { 300 } else { 60 }) {
             let len = rng.range(1, 70_000) as usize;
             let start = region.start + rng.below(region.end - region.start);
